@@ -13,8 +13,12 @@
   recompose    gtx/matrix_decompose recompose() == perspective row * translate * mat4_cast(orientation) * skew shears * scale, lane by lane against
                the composition of GLM's own factors (the |skew| > 0 guards are decided over the order relations; NaN skews excluded), in the
                scalar type of the arguments
-The statement's decompose() clause (recompose(decompose(M)) == M) needs orthonormality / unit-quaternion reasoning over a data-dependent
-index permutation; it is not decided.
+  decompose    decompose() applied to the composition P * T * R(q) * Kx * Ky * Kz * S of symbolic components (unit q, positive scales, M[3][3] == 1):
+               the decision tree of its guards and of the trace / largest-diagonal quaternion extraction is explored path by path, every
+               intermediate polynomial reduced modulo |q| = 1 (sqrt of perfect squares -> |.|, signs of the scales fixed): on every path that
+               returns true the scale, skew, translation and perspective come back exactly and the orientation is parallel to q with unit norm
+               (q or -q); perspective may only be dropped when all three bottom-row entries are below epsilon.  A mismatch is REFUTED with an
+               explicit rational input that takes the path.  Together with `recompose` this is the statement's round-trip clause.
 """
 from fractions import Fraction
 from laneflow import term as tm
@@ -417,6 +421,170 @@ def lookat_case(name, k, hand, m4, v3, w):
     return R.Case(name, [k], judge)
 
 
+# ---- decompose(compose(scale, orientation, translation, skew, perspective)) -------------------------------------------------------------------
+
+def decompose_case(T, Q):
+    """decompose() applied to P * T * R(q) * Kx * Ky * Kz * S (the composition recompose() is proved equal to), with symbolic components,
+    |q| = 1 and positive scales: in every branch of its guards and of the quaternion extraction the returned components are the ones the
+    matrix was composed from (orientation up to sign), so recompose() rebuilds the same matrix."""
+    from rules import c04 as Q4
+    sc = G.scalar(T)
+    tg = sc.tag + ('' if Q == 'highp' else '_' + Q)
+    m4, v3, v4, qt, bt = G.mat(4, 4, T, Q), G.vec(3, T, Q), G.vec(4, T, Q), G.quat(T, Q), G.scalar('uint8')
+    outs = [Par('os', v3, False), Par('oq', qt, False), Par('ot', v3, False), Par('ok', v3, False), Par('op', v4, False), Par('ob', bt, False)]
+    ins = [Par('s', v3), Par('q', qt), Par('t', v3), Par('k', v3), Par('p', v3)]
+    # the perspective w is chosen so that the composed matrix has M[3][3] == 1 (decompose normalises by M[3][3]; a homogeneous scale is not a component)
+    body = ('{ typedef %s M; M m(1); m[0][3] = p->x; m[1][3] = p->y; m[2][3] = p->z; m[3][3] = 1 - (p->x * t->x + p->y * t->y + p->z * t->z); M kx(1), ky(1), kz(1); kx[2][1] = k->x; ky[2][0] = k->y; kz[1][0] = k->z; '
+            'M c = m * translate(*t) * mat4_cast(*q) * kx * ky * kz * scale(*s); *ob = decompose(c, *os, *oq, *ot, *ok, *op) ? 1 : 0; }' % m4.cpp)
+    k = K('decompose_rt_%s' % tg, outs + ins, body, CFG)
+    name = 'decompose(compose)<%s>' % tg
+
+    def judge(ctx):
+        err = ctx.compile_error(k)
+        if err:
+            return [R.ob(name, 'existence', R.REFUTED, 'cannot be instantiated: ' + err, kernel=k.source())]
+        it = ctx.fn(k)
+        terms = {}
+        for nm_, ty in (('os', v3), ('ot', v3), ('ok', v3), ('op', v4), ('oq', qt)):
+            for lane, t in L.out_lanes(ctx, k, ty, base=nm_).items():
+                terms[(nm_, lane)] = t
+        flag = I.out_lane(it, 'ob', 0, 1)
+        q = Q4.qin('q', qt)
+        sA = [L.in_atom('s', v3, i) for i in range(3)]
+        kA = [L.in_atom('k', v3, i) for i in range(3)]
+        tA = [L.in_atom('t', v3, i) for i in range(3)]
+        pA = [L.in_atom('p', v3, i) for i in range(3)]
+        pA.append(Poly.const(1) - sum((pA[i] * tA[i] for i in range(3)), Poly()))
+        positive = {m[0] for x in sA for m in x.t}
+        norm = lambda x: Q4.unit(x, q)
+        orient = []
+        for e in range(4):
+            (ea,), = [m for m in q[e].t]
+            repl = Poly.const(1) - sum((q[j] * q[j] for j in range(4) if j != e), Poly())
+            orient.append((ea, repl))
+
+        def abs_mono(mp, pc):
+            (m, c), = mp.t.items()
+            pos = tuple(a for a in m if a in positive)
+            rest = tuple(a for a in m if a not in positive)
+            r = Poly({tuple(sorted(pos)): abs(Fraction(c))})
+            if rest:
+                r = r * Poly.atom(('fabs', ('P', Poly({tuple(sorted(rest)): Fraction(1)}))))
+            return r
+
+        def hook(kind, arg, pc):
+            if kind == 'fabs':
+                return abs_mono(arg, pc) if len(arg.t) == 1 else None
+            for ea, repl in orient:
+                a2 = P.reduce_ideal(arg, ea, repl, deg=2)
+                if len(a2.t) == 1:
+                    (m, c), = a2.t.items()
+                    rc = P._isqrt_frac(Fraction(c)) if c > 0 else None
+                    if rc is not None and not any(m.count(x) % 2 for x in set(m)):
+                        root = Poly({tuple(sorted(x for x in set(m) for _ in range(m.count(x) // 2))): rc})
+                        return abs_mono(root, pc)
+            return None
+        # explore the decision tree of the guards / branch comparisons
+        def evaluate(cx):
+            fl = cx._ieval(flag)
+            if fl is None:
+                fl = 1 if cx.decide(tm.icmp('ne', flag, tm.const(flag.w, 0))) else 0
+            if not fl:
+                return None
+            return {kk: cx.fpoly(terms[kk]) for kk in keys}
+        keys = sorted(terms)
+        try:
+            leaves = P.decision_paths(lambda a_: P.NormCtx(a_, norm, hook), evaluate)
+        except P.TooManyPaths:
+            return [R.ob(name, 'decompose', R.UNDECIDED, 'more than 3000 decision paths')]
+        rows = [(tuple(asg.values()), got, cx, list(asg.keys()), infos) for asg, infos, got, cx in leaves]
+        res = []
+        seen = {}
+        nret = 0
+        for vals, got, cx, atoms, infos in rows:
+            if got is None:
+                nret += 1
+                continue
+            key = tuple(got[kk].key() for kk in keys)
+            if key in seen:
+                continue
+            seen[key] = vals
+            bi = len(seen) - 1
+            regime = ', '.join('%s %s %s' % (P.show_poly(infos[at][0], limit=2), '<' if v == 'lt' else '>', P.show_poly(infos[at][1], limit=2))
+                               for at, v in zip(atoms, vals) if at[0] == 'pair')
+            bad = []
+            diffs = []
+            for i in range(3):
+                for nm_, want, what in (('os', sA, 'scale'), ('ok', kA, 'skew'), ('ot', tA, 'translation')):
+                    d = got[(nm_, i)] - want[i]
+                    if not Q4.zero_in_all_sign_cases(d, cx, norm):
+                        bad.append('%s.%s = %s' % (what, 'xyz'[i], P.show_poly(norm(got[(nm_, i)]), limit=4)))
+                        diffs.append(('%s.%s' % (what, 'xyz'[i]), got[(nm_, i)], want[i]))
+            # perspective: the composed (0,0,0,1)-or-p : equal to p, or dropped because all three bottom-row entries are below epsilon
+            pd = [got[('op', i)] - pA[i] for i in range(4)]
+            p_ok = all(Q4.zero_in_all_sign_cases(d, cx, norm) for d in pd)
+            dropped = all(got[('op', i)] == (Poly.const(1) if i == 3 else Poly()) for i in range(4))
+            if not p_ok:
+                small = 0
+                for at, v in zip(atoms, vals):
+                    if at[0] != 'pair':
+                        continue
+                    pa, pb = infos[at]
+                    mentions_p = lambda x: any(a in P.lane_atoms([x]) for pp in pA[:3] for m in pp.t for a in m)
+                    if (pb.is_const() and mentions_p(pa) and v == 'lt') or (pa.is_const() and mentions_p(pb) and v == 'gt'):
+                        small += 1
+                if not (dropped and small >= 3):
+                    for i in range(4):
+                        if not Q4.zero_in_all_sign_cases(pd[i], cx, norm):
+                            diffs.append(('perspective.%s' % 'xyzw'[i], got[('op', i)], pA[i]))
+                    bad.append('perspective = (%s) although only %d bottom-row entries are tested below epsilon' % (', '.join(P.show_poly(got[('op', i)], limit=2) for i in range(4)), small))
+            # orientation: parallel to q and unit
+            gq = tuple(got[('oq', c)] for c in 'wxyz')
+            okq = True
+            for i in range(4):
+                for j in range(i + 1, 4):
+                    if not Q4.zero_in_all_sign_cases(gq[i] * q[j] - gq[j] * q[i], cx, norm):
+                        okq = False
+            okq = okq and any(Q4.zero_in_all_sign_cases(Q4.qnorm2(gq) - Poly.const(1), cx, lambda x, ea=ea, repl=repl: P.reduce_ideal(x, ea, repl, deg=2)) for ea, repl in orient)
+            if not okq:
+                bad.append('orientation (w = %s) is not +-q' % P.show_poly(gq[0], limit=4))
+            status = R.PROVED if not bad else R.UNDECIDED
+            wit = ''
+            if bad and diffs:
+                # an explicit rational input (unit quaternion, positive scales) that takes exactly this decision path and where the returned
+                # component, evaluated exactly, differs from the composing one
+                cons = []
+                for at, v in zip(atoms, vals):
+                    if at[0] != 'pair':
+                        continue
+                    pa, pb = infos[at]
+                    e_ = pa - pb
+                    # |x| below a tiny positive constant: realised by x == 0
+                    u_ = P._unwrap_abs(e_)
+                    if u_ is not None and ((u_[0] > 0 and v == 'lt' and 0 < -u_[2] < Fraction(1, 1000)) or (u_[0] < 0 and v == 'gt' and 0 < u_[2] < Fraction(1, 1000))):
+                        cons.append(('eq', u_[1]))
+                    else:
+                        cons.append((v, e_))
+                cons += [('gt', x) for x in sA]
+                cons.sort(key=lambda c_: 0 if c_[0] == 'eq' else 1)
+                for what, g_, w_ in diffs[:3]:
+                    if not all(P.transparent(x) for x in [g_ - w_] + [e_ for _, e_ in cons]):
+                        continue
+                    env = P.find_witness(cons[0][0], cons[0][1], [g_ - w_], extra=cons[1:], spheres=Q4.sph(q), tries=1500)
+                    if env is not None:
+                        status = R.REFUTED
+                        wit = ' -- e.g. at %s: decompose returns %s = %s, the matrix was composed with %s' % (P.show_env(env), what, P.eval_poly(g_, env), P.eval_poly(w_, env))
+                        break
+            short = regime if len(regime) < 400 else regime[:400] + ' ...'
+            res.append(R.ob('%s.branch%d' % (name, bi), 'decompose', status,
+                            ('returns the composing scale, skew, translation, perspective and +-orientation in the regime [%s]' % short) if not bad else
+                            ('%s%s  (regime [%s])' % ('; '.join(bad[:4]), wit, short)), where=None, kernel=k.source()))
+        if not seen:
+            res.append(R.ob(name, 'decompose', R.UNDECIDED, 'no branch returns true (%d rows return false)' % nret))
+        return res
+    return R.Case(name, [k], judge)
+
+
 def cases(tier):
     cs = []
     types = [('float', 'highp'), ('double', 'highp')]
@@ -424,6 +592,7 @@ def cases(tier):
         types += [('float', 'mediump'), ('double', 'lowp')]
     for T, Q in types:
         cs += type_cases(T, Q, tier)
+        cs.append(decompose_case(T, Q))
     cs += canaries()
     return cs
 
@@ -452,7 +621,7 @@ EXPLANATION = ('static: translate/rotate/scale/shear (+ _slow forms), the gtx tr
                'polynomial identities on its own lanes')
 ASSUMPTIONS = ['float operations read as exact real arithmetic (the elementary-matrix product is an algebraic identity; rounding differences between fast and _slow paths are not decided)',
                'cos/sin are uninterpreted atoms of the angle: equal up to the ring axioms only (no angle-sum identities needed)',
-               'decompose()/recompose() round trip, axisAngle() and interpolate() are branch/numeric dependent and are not decided',
+               'decompose is decided for matrices composed with positive scales and M[3][3] == 1 (negative scales are returned with flipped signs, a homogeneous factor is not a component); axisAngle() and interpolate() are not decided',
                'handedness dispatch of lookAt is decided by the C08 dispatch rule']
 TRUSTED = ['clang/LLVM 14', 'tools/irtool.cc', 'laneflow normal forms', 'elementary matrices in rules/c09.py (each a few lines, from the property / manual)']
 LEVEL = 'proof'
